@@ -11,6 +11,8 @@ package main
 // Observed: "ret alloc=<small|LARGE:n> reads=<payload bytes pulled from the source>" | PANIC:... | HANG
 
 import (
+	"os"
+	"os/exec"
 	"bufio"
 	"bytes"
 	"context"
@@ -112,6 +114,18 @@ func fzRun(entry string, data []byte, arg string) (extra string) {
 		ext := wsflate.Extension{Parameters: wsflate.DefaultParameters}
 		ws.Upgrader{Protocol: func(b []byte) bool { return sel(string(b)) }, Negotiate: ext.Negotiate, ReadBufferSize: 16}.Upgrade(discardRW{bytes.NewReader(data)})
 		ws.Upgrader{Extension: func(httphead.Option) bool { return true }}.Upgrade(discardRW{bytes.NewReader(data)})
+	case "dup":
+		// the debug wrapper around the upgrader, with every combination of its callbacks
+		for m := 0; m < 4; m++ {
+			du := wsutil.DebugUpgrader{}
+			if m&1 != 0 {
+				du.OnRequest = func([]byte) {}
+			}
+			if m&2 != 0 {
+				du.OnResponse = func([]byte) {}
+			}
+			du.Upgrade(discardRW{bytes.NewReader(data)})
+		}
 	case "hup":
 		req, err := http.ReadRequest(bufio.NewReader(bytes.NewReader(data)))
 		if err == nil {
@@ -300,7 +314,7 @@ func genC15(tier string, r *rng) {
 	}{
 		{"rh", frameSeeds}, {"rf", frameSeeds[:5]}, {"rdr", frameSeeds}, {"rm", frameSeeds[:5]}, {"rd", frameSeeds[:5]}, {"ctl", frameSeeds},
 		{"up", [][]byte{reqSeed}}, {"hup", [][]byte{reqSeed}}, {"dl", [][]byte{respSeed}}, {"dcf", deflSeeds}, {"pp", optSeeds}, {"neg", optSeeds},
-		{"ptok", optSeeds}, {"pext", optSeeds}, {"ddl", [][]byte{respSeed}},
+		{"ptok", optSeeds}, {"pext", optSeeds}, {"ddl", [][]byte{respSeed}}, {"dup", [][]byte{reqSeed}},
 	}
 	// handshake heads cut at EVERY offset (and with the bytes around the cut doubled), CRLF and LF: each
 	// entry point that reads a head returns
@@ -319,12 +333,25 @@ func genC15(tier string, r *rng) {
 				continue
 			}
 			run(fmt.Sprintf("fz up %s", hx(rq[:cut])))
+			run(fmt.Sprintf("fz dup %s", hx(rq[:cut])))
 		}
 		// header lines whose first byte is the colon
 		for _, line := range []string{": x", ":", ":::", ": "} {
 			run(fmt.Sprintf("fz up %s", hx(bytes.Replace(rq, []byte(eol+"Upgrade"), []byte(eol+line+eol+"Upgrade"), 1))))
+			run(fmt.Sprintf("fz dup %s", hx(bytes.Replace(rq, []byte(eol+"Upgrade"), []byte(eol+line+eol+"Upgrade"), 1))))
 			run(fmt.Sprintf("fz dl %s", hx(bytes.Replace(rs, []byte(eol+"Upgrade"), []byte(eol+line+eol+"Upgrade"), 1))))
 			run(fmt.Sprintf("fz ddl %s", hx(bytes.Replace(rs, []byte(eol+"Upgrade"), []byte(eol+line+eol+"Upgrade"), 1))))
+		}
+	}
+	// a long run of payload-less frames inside one message (legal traffic: 2 bytes a frame): every read path keeps
+	// going at constant depth - run in a child process with a 32 MiB stack limit
+	for _, kind := range []string{"cont", "ping"} {
+		for _, entry := range []string{"rd", "rdata", "rm"} {
+			n := 700000
+			if tier == "thorough" {
+				n = 4000000
+			}
+			run(fmt.Sprintf("iso manyempty %d %s %s", n, kind, entry))
 		}
 	}
 	for _, p := range plan {
@@ -420,4 +447,103 @@ func hasHugeLength(b []byte) bool {
 		r.Seek(h.Length, io.SeekCurrent)
 	}
 	return false
+}
+
+
+// ---- operations run in a process of their own ----
+
+// repReader generates head ++ unit*n ++ tail without holding it in memory.
+type repReader struct {
+	head, unit, tail []byte
+	n                int
+	cur              []byte
+	stage            int
+}
+
+func (g *repReader) Read(p []byte) (int, error) {
+	for len(g.cur) == 0 {
+		switch {
+		case g.stage == 0:
+			g.cur, g.stage = g.head, 1
+		case g.stage == 1 && g.n > 0:
+			// many units per refill
+			k := g.n
+			if k > 4096 {
+				k = 4096
+			}
+			g.cur = bytes.Repeat(g.unit, k)
+			g.n -= k
+		case g.stage == 1:
+			g.cur, g.stage = g.tail, 2
+		default:
+			return 0, io.EOF
+		}
+	}
+	n := copy(p, g.cur)
+	g.cur = g.cur[n:]
+	return n, nil
+}
+
+func init() {
+	// iso <op> <args...>: run <op> in a child process with a modest stack limit (32 MiB) and report its result, or how
+	// the child died - a fatal runtime error (stack exhaustion, concurrent map access) cannot be recovered from
+	// and would otherwise take the whole run with it
+	ops["iso"] = func(a []string) string {
+		cmd := exec.Command(os.Args[0], append([]string{"child"}, a...)...)
+		var so, se bytes.Buffer
+		cmd.Stdout, cmd.Stderr = &so, &se
+		cmd.Env = append(os.Environ(), "GOMEMLIMIT=2GiB")
+		done := make(chan error, 1)
+		if err := cmd.Start(); err != nil {
+			return "SKIP:cannot-start-child"
+		}
+		go func() { done <- cmd.Wait() }()
+		select {
+		case err := <-done:
+			if err != nil {
+				why := "exit"
+				for _, l := range strings.Split(se.String(), "\n") {
+					if strings.HasPrefix(l, "fatal error:") || strings.HasPrefix(l, "runtime: goroutine stack exceeds") || strings.HasPrefix(l, "panic:") {
+						why = strings.ReplaceAll(strings.TrimSpace(l), " ", "_")
+						break
+					}
+				}
+				return "CRASH:" + why
+			}
+			return strings.TrimSpace(so.String())
+		case <-time.After(120 * time.Second):
+			cmd.Process.Kill()
+			return "HANG"
+		}
+	}
+	// manyempty <n> <cont|ping> <rd|rdata|rm>: ONE fragmented binary message "a" ... "z" with n payload-less frames
+	// between the two fragments (empty non-final continuations, or empty pings), server-to-client (unmasked), read
+	// through wsutil.Reader + ReadAll, ReadServerData, or ReadMessage
+	ops["manyempty"] = func(a []string) string {
+		n, _ := strconv.Atoi(a[0])
+		unit := []byte{0x00, 0x00}
+		if a[1] == "ping" {
+			unit = []byte{0x89, 0x00}
+		}
+		src := &repReader{head: []byte{0x02, 0x01, 'a'}, unit: unit, n: n, tail: []byte{0x80, 0x01, 'z'}}
+		switch a[2] {
+		case "rd":
+			rd := &wsutil.Reader{Source: src, State: ws.StateClientSide, OnIntermediate: func(ws.Header, io.Reader) error { return nil }}
+			if _, err := rd.NextFrame(); err != nil {
+				return "nf:" + classify(err)
+			}
+			b, err := io.ReadAll(rd)
+			return fmt.Sprintf("%s %s", classify(err), hx(b))
+		case "rdata":
+			b, _, err := wsutil.ReadServerData(discardRW{src})
+			return fmt.Sprintf("%s %s", classify(err), hx(b))
+		default:
+			ms, err := wsutil.ReadMessage(src, ws.StateClientSide, nil)
+			last := []byte{}
+			if len(ms) > 0 {
+				last = ms[len(ms)-1].Payload
+			}
+			return fmt.Sprintf("%s %s", classify(err), hx(last))
+		}
+	}
 }
